@@ -52,6 +52,9 @@ fn cases_deviations(_rng: &mut Rng, sink: &mut dyn FnMut(J) -> bool) {
     list.push((base(json!({"_sdk_version": "1", "_sd1": [1], "o": {"_sd_card": "s", "_sd": ["#0"], "_sdx": {"_sd_": 1}, "....": 1, "...x": 2}, "arr": [{"_sdk": 1}, {"...": "#1"}]})), vec![json!(["s", "n", {"_sd_card": 1, "_sd_alg": "x", "k": [{"_sdz": 2}]}]), json!(["s", {"_sdk_version": "2", "_sd.": 1}])], None));
     list.push((base(json!({"_sd": ["#0"]})), vec![json!(["s", "o", {"_sd": ["#1"], "_sdk": true, "_sd_alg": "nested"}]), json!(["s", "_sdk_version", {"_sd1": 1}])], None));
     list.push((base(json!({"arr": [{"...": "#0"}, {"....": 1}, {"...x": 2}]})), vec![json!(["s", [{"_sdq": 1}, {"_sd ": 2}]])], None));
+    // disclosed members named like registered JWT claims, below the top level
+    list.push((base(json!({"o": {"_sd": ["#0", "#1", "#2", "#3", "#4"], "k": 1}, "arr": [{"...": "#5"}]})), vec![json!(["s", "iss", "nested-iss"]), json!(["s", "nbf", 1]), json!(["s", "exp", 2]), json!(["s", "cnf", {"jwk": 1}]), json!(["s", "sub", "x"]), json!(["s", {"_sd": ["#6", "#7"]}]), json!(["s", "aud", "a"]), json!(["s", "iat", 5])], None));
+    list.push((base(json!({"_sd": ["#0", "#1", "#2"]})), vec![json!(["s", "nbf", 1]), json!(["s", "cnf", {"jwk": {"kty": "oct"}}]), json!(["s", "sub", "subject"])], None));
     // ---- duplicate digests
     list.push((base(json!({"_sd": ["#0", "#0"]})), vec![d_n0.clone()], None));
     list.push((base(json!({"_sd": ["#0"], "o": {"_sd": ["#0"]}})), vec![d_n0.clone()], None));
